@@ -68,6 +68,19 @@ pub fn build_struct_from_template(
     Ok(struct_def)
 }
 
+/// Check if a type is the given struct or an array of the given struct
+fn is_struct_by_value(type_id: ir::TypeId, struct_id: ir::StructId, module: &ir::Module) -> bool {
+    let mut current = type_id;
+    loop {
+        match module.type_registry.get_type_layer(current) {
+            ir::TypeLayer::Struct(id) => return id == struct_id,
+            ir::TypeLayer::Array(inner, _) => current = inner,
+            ir::TypeLayer::Modifier(_, inner) => current = inner,
+            _ => return false,
+        }
+    }
+}
+
 /// Process a struct internals
 fn parse_struct_internal(
     sd: &ast::StructDefinition,
@@ -178,6 +191,14 @@ fn parse_struct_internal(
                         false,
                         context,
                     )?;
+
+                    // The struct is not complete until the end of its definition so can not contain itself
+                    if is_struct_by_value(type_id, id, &context.module) {
+                        return Err(TyperError::VariableHasIncompleteType(
+                            type_id,
+                            ast_member.ty.location,
+                        ));
+                    }
 
                     // Ensure the name is unqualified
                     let name = match scoped_name.try_trivial() {
